@@ -49,6 +49,7 @@ type famEnv struct {
 	pendingCalls []string
 	resolved     map[string]*resolved // places whose address was already resolved (statement schemas)
 	specFrame    *smt.Term            // up(env, upn) as first computed by the specification (generic depth)
+	inSpec       bool                 // the places of a frame-only contract are being resolved
 }
 
 // VerifyFamily checks the function's own contract and every closure it creates.
@@ -297,7 +298,7 @@ func (x *Exec) checkClosure(sp *spec.FuncSpec, s *closureSite, sig string) {
 	B := x.B
 	x.prefix = QualName(s.frame.fn)
 	x.sig = sig
-	var exprC, stmtC, jumpC *spec.Clause
+	var exprC, stmtC, jumpC, modC *spec.Clause
 	var reqs, invs []*spec.Clause
 	for _, c := range sp.Of("closure") {
 		w := strings.Fields(c.Text)
@@ -311,13 +312,15 @@ func (x *Exec) checkClosure(sp *spec.FuncSpec, s *closureSite, sig string) {
 			stmtC = c
 		case "jump":
 			jumpC = c
+		case "modifies":
+			modC = c
 		case "requires":
 			reqs = append(reqs, c)
 		case "loop":
 			invs = append(invs, c)
 		}
 	}
-	if exprC == nil && stmtC == nil && jumpC == nil {
+	if exprC == nil && stmtC == nil && jumpC == nil && modC == nil {
 		specErr("%s creates closures but its contract has no 'closure expr', 'closure stmt' or 'closure jump' clause", QualName(s.frame.fn))
 	}
 	clo := s.clo
@@ -329,7 +332,10 @@ func (x *Exec) checkClosure(sp *spec.FuncSpec, s *closureSite, sig string) {
 	for c, v := range s.st.cells {
 		run.cells[c] = v
 	}
-	run.PC = s.st.PC
+	// the creation path condition, minus conjuncts that carry quantifiers (array facts of inlined
+	// callees of the compile function): dropping hypotheses is sound and keeps the closure's
+	// obligations small
+	run.PC = x.dropQuantified(s.st.PC)
 	facts, pins := propagate(s.st.PC)
 	if facts[-1] {
 		// infeasible path (a value pinned to two different constants): nothing to prove
@@ -412,7 +418,9 @@ func (x *Exec) checkClosure(sp *spec.FuncSpec, s *closureSite, sig string) {
 	var specRes []Value
 	var alt *specAlt
 	x.NoObl++
-	if exprC != nil {
+	if exprC == nil && stmtC == nil && jumpC == nil {
+		// frame-only contract: checked after the run (see below)
+	} else if exprC != nil {
 		e, err := spec.ParseExpr(strings.TrimSpace(strings.TrimPrefix(strings.TrimSpace(exprC.Text), "expr")))
 		if err != nil {
 			x.NoObl--
@@ -442,7 +450,9 @@ func (x *Exec) checkClosure(sp *spec.FuncSpec, s *closureSite, sig string) {
 		return
 	}
 	clauseText := ""
-	if exprC != nil {
+	if exprC == nil && stmtC == nil && jumpC == nil {
+		clauseText = modC.Text
+	} else if exprC != nil {
 		clauseText = exprC.Text
 	} else if jumpC != nil {
 		clauseText = jumpC.Text
@@ -488,7 +498,13 @@ func (x *Exec) checkClosure(sp *spec.FuncSpec, s *closureSite, sig string) {
 			}
 		}
 		var goal *smt.Term
-		if alt != nil {
+		if exprC == nil && stmtC == nil && jumpC == nil {
+			// frame-only contract: the final heap equals the initial heap except at the listed places
+			x.NoObl++
+			expect := x.frameOnlyState(specFrame, fe, modC, run.clone(), r.st, s.st)
+			x.NoObl--
+			goal = x.sameOutcome(exitRec{st: r.st}, nil, expect)
+		} else if alt != nil {
 			var gs []*smt.Term
 			for k := range alt.states {
 				gs = append(gs, x.sameOutcome(r, alt.res[k], alt.states[k]))
@@ -720,6 +736,77 @@ func (x *Exec) trampoline(f *Frame, fe *famEnv, s *State) []Value {
 	return []Value{stmt, fe.env}
 }
 
+// frameOnlyState builds the state a frame-only closure contract allows:
+//
+//	modifies L1, L2, ...
+//
+// the initial heap with, at each listed place (resolved in the initial heap), the value the
+// closure left there. Places are variable(v) / boxed(v) / unboxed(v) or plain lvalues over the
+// closure's parameters and the compile function's values at creation (env.IP, env.Ints[idx]).
+func (x *Exec) frameOnlyState(f *Frame, fe *famEnv, c *spec.Clause, init, final, create *State) *State {
+	text := strings.TrimSpace(strings.TrimPrefix(strings.TrimSpace(c.Text), "modifies"))
+	fe.inSpec = true
+	defer func() { fe.inSpec = false }()
+	for _, part := range splitTopComma(text) {
+		// "L if cond": the place is listed only on creation paths where cond (an expression of the
+		// compile function, evaluated at creation) holds
+		if k := strings.Index(part, " if "); k >= 0 {
+			ce, err := spec.ParseExpr(part[k+4:])
+			if err != nil {
+				specErr("%v", err)
+			}
+			// (evaluated at the creation point: locals of the compile function are in scope)
+			cond := x.simplifyUnder(create.PC, fe.parent.evalBool(ce, create, create))
+			if cond.IsFalse() {
+				continue
+			}
+			if !cond.IsTrue() && x.entailed(x.dropQuantified(create.PC), cond) {
+				cond = x.B.True()
+			}
+			if !cond.IsTrue() {
+				// not decided by the creation path: the place is NOT granted (the stronger reading;
+				// a closure that does write it fails its frame obligation)
+				continue
+			}
+			part = strings.TrimSpace(part[:k])
+		}
+		e, err := spec.ParseExpr(part)
+		if err != nil {
+			specErr("%v", err)
+		}
+		isGhost := false
+		if call, ok := e.(*spec.Call); ok {
+			if id, ok := call.Fun.(*spec.Ident); ok && (id.Name == "variable" || id.Name == "boxed" || id.Name == "unboxed") {
+				isGhost = true
+			}
+		}
+		// a place that cannot be resolved on this creation path (a local of the compile function
+		// that is not in scope here, a variable whose kind the path does not fix) is not granted
+		func() {
+			defer func() {
+				if r := recover(); r != nil {
+					switch r.(type) {
+					case SpecError, Unsupported:
+						return
+					}
+					panic(r)
+				}
+			}()
+			if isGhost {
+				fe.memo = map[string]TV{}
+				fe.resolved = map[string]*resolved{}
+				pl := x.evalPlace(f, fe, e, init, create)
+				rs := pl.resolve(init)
+				rs.write(init, rs.read(final))
+				return
+			}
+			ptr, t := f.evalAddr(e, init, create)
+			x.store(init, ptr, t, x.load(final, ptr, t))
+		}()
+	}
+	return init
+}
+
 // evalJumpSpec interprets a control-transfer schema:
 //
 //	jump N, P
@@ -885,6 +972,8 @@ func (x *Exec) upTerm(st *State, env, n *smt.Term, envT types.Type) *smt.Term {
 	up := func(k *smt.Term) *smt.Term { return B.UF("up", RefS, outerArr, env, k) }
 	zero := B.BVC(0, 64)
 	x.assumeGlobal(B.Eq(up(zero), env))
+	// leaving a non-positive number of frames leaves none (the loops in the code do not run)
+	x.assumeGlobal(B.Implies(B.BVCmp("bvsle", n, zero), B.Eq(up(n), env)))
 	cur := n
 	for i := 0; i < 3; i++ {
 		prev := B.BVBin("bvadd", cur, B.BVC(^uint64(0), 64))
@@ -902,14 +991,14 @@ func (x *Exec) variablePlace(f *Frame, fe *famEnv, args []spec.Expr, st, create 
 		specErr("variable(v [, depth])")
 	}
 	par := fe.parent
+	v := fe.atCreation(args[0])
+	var depthT *smt.Term
+	if len(args) > 1 {
+		depthT = par.asInt64(fe.atCreation(args[1]))
+	}
 	sc, si := par.cur, par.curIdx
 	par.cur, par.curIdx = nil, 0
 	defer func() { par.cur, par.curIdx = sc, si }()
-	v := par.eval(args[0], create, create)
-	var depthT *smt.Term
-	if len(args) > 1 {
-		depthT = par.asInt64(par.eval(args[1], create, create))
-	}
 	vt := v.T
 	if pt, ok := vt.Underlying().(*types.Pointer); ok {
 		vt = pt.Elem()
@@ -1125,4 +1214,31 @@ func (x *Exec) xtypeKind(v Value) *smt.Term {
 		return x.B.UF("xtype_kind2", I64, s.Fields[0].(*smt.Term), x.scalar(s.Fields[1], nil))
 	}
 	return x.B.UF("xtype_kind", I64, x.scalar(v, nil))
+}
+
+// dropQuantified removes the top-level conjuncts of pc that contain a quantifier.
+func (x *Exec) dropQuantified(pc *smt.Term) *smt.Term {
+	memo := map[int]bool{}
+	var has func(t *smt.Term) bool
+	has = func(t *smt.Term) bool {
+		if v, ok := memo[t.ID]; ok {
+			return v
+		}
+		r := t.Op == "forall" || t.Op == "exists"
+		for _, a := range t.Args {
+			if r {
+				break
+			}
+			r = has(a)
+		}
+		memo[t.ID] = r
+		return r
+	}
+	var keep []*smt.Term
+	for _, c := range conjuncts(pc) {
+		if !has(c) {
+			keep = append(keep, c)
+		}
+	}
+	return x.B.And(keep...)
 }
